@@ -454,7 +454,7 @@ def explore_order_node(util, n, prefix, sh):
 
 def main(ctx):
     jobs = []
-    top = ctx.pick(600, 4096)
+    top = ctx.pick(400, 4096)
     orders = list(range(2, top + 1))
     if ctx.quick:
         for k in range(10, 13):
